@@ -148,8 +148,7 @@ class SimClock(Clock):
         return self._t
 
     def advance(self, d):
-        assert d >= 0
-        self._t += d
+        self._t += d        # d < 0: a clock is free to go backwards; the step time is whatever it shows when a step begins
 
     def peek_next(self):
         return self._t
